@@ -70,10 +70,28 @@ def pool_contents(rng):
     pool['dup-b'] = b0 + 'Gradient 1, 65\nGradient 1, 45\n'
     pool['digit-a'] = b0 + 'Production Flow Rate per Well, 61\n'
     pool['digit-b'] = b0 + 'Production Flow Rate per Well, 61.5 , -- comment\n'
+    # the same number with and without / with another unit after it
+    pool['unit-a'] = b0 + 'Reservoir Depth, 3\n'
+    pool['unit-b'] = b0 + 'Reservoir Depth, 3 mile\n'
+    # a failure path that ends in a bare sys.exit() (user-provided profile whose file does not exist)
+    bf = geo.base_params(2, 1, 1, L=10, n=2)
+    bf.pop('Drawdown Parameter', None)
+    bf.update({'Reservoir Model': 5, 'Reservoir Output File Name': '/nonexistent/profile.txt'})
+    pool['badfile'] = geo.params_to_text(bf)
+    # one segment given in list form AND in enumerated form with another value: whichever the reader applies last must not depend on the hash seed
+    pool['list-vs-enum'] = geo.params_to_text(seglist) + 'Gradients, 50, 40\nGradient 2, 70\nThicknesses, 2, 1\n'
+    # requests made of a file plus overriding parameters: the content requested is the file's text followed by the overriding lines
+    for c in QP_BASES:
+        for ov, lines_ in OVERRIDES.items():
+            pool[f'{c}+{ov}'] = pool[c] + ''.join(f'{a}, {b}\n' for a, b in lines_.items())
     return pool
 
 
-NEAR = [('mpf-a', 'mpf-b'), ('list-a', 'list-b'), ('dup-a', 'dup-b'), ('digit-a', 'digit-b'), ('seg-set', 'seg-default'), ('ok0', 'sparse'), ('ok1', 'sparse-heat'), ('badcalc', 'cyl')]
+QP_BASES = ('ok0', 'ok1', 'dup-a', 'digit-a')
+OVERRIDES = {'g61': {'Gradient 1': 61}, 'u77': {'Utilization Factor': 0.77}}
+
+
+NEAR = [('mpf-a', 'mpf-b'), ('list-a', 'list-b'), ('dup-a', 'dup-b'), ('digit-a', 'digit-b'), ('seg-set', 'seg-default'), ('ok0', 'sparse'), ('ok1', 'sparse-heat'), ('badcalc', 'cyl'), ('ok0', 'badfile'), ('badfile', 'ok2'), ('list-vs-enum', 'list-a'), ('unit-a', 'unit-b')]
 
 
 def reference(chk, pool):
@@ -115,8 +133,21 @@ def gen_history(rng, pool, scratch, k):
         content_of[p] = c
     caching = rng.choice([0, 1, 1])
     dirs = [str(d), str(d / 'sub'), '/', str(Path(scratch))]
+    nv = 0
     for _ in range(rng.randint(8, 30)):
         z = rng.random()
+        if z < 0.12:
+            # a request made of a file plus overriding parameters; then the file is rewritten and the same (path, overrides) is requested again
+            p = rng.choice(paths)
+            c1 = caching if rng.random() < 0.8 else 1 - caching
+            ov = rng.choice(list(OVERRIDES))
+            a, b = rng.sample(QP_BASES, 2)
+            for c in (a, b):
+                vp = f'{p}#v{nv}'
+                nv += 1
+                ops += [['w', p, c], ['wv', vp, f'{c}+{ov}'], ['qp', p, c1, 'reused', ov, vp]]
+                content_of[p] = c
+            continue
         if z < 0.25:
             # a near pair through one path: request X, rewrite the file with its neighbour Y, request again (stale caches, memo keys, leaked state)
             a, b = rng.choice(NEAR)
@@ -134,7 +165,7 @@ def gen_history(rng, pool, scratch, k):
             ops.append(['w', p, c])
         else:
             ops.append(['c', rng.choice(dirs)])
-    return {'start_cwd': rng.choice(dirs[:3]), 'contents': pool, 'ops': ops, 'dir': str(d)}
+    return {'start_cwd': rng.choice(dirs[:3]), 'contents': pool, 'ops': ops, 'dir': str(d), 'overrides': OVERRIDES}
 
 
 def run_history(args):
@@ -166,14 +197,16 @@ def evaluate(chk: core.Check, n_hist):
     lines = []
     for k, spec in enumerate(specs):
         # ids without separators for the line protocol
-        pid = {p: f'p{j}' for j, p in enumerate(sorted({o[1] for o in spec['ops'] if o[0] in ('q', 'w')}))}
+        pid = {p: f'p{j}' for j, p in enumerate(sorted({o[1] for o in spec['ops'] if o[0] in ('q', 'w', 'wv')}))}
         did = {dd: f'd{j}' for j, dd in enumerate(sorted({o[1] for o in spec['ops'] if o[0] == 'c'} | {spec['start_cwd']}))}
         ops = []
         for o in spec['ops']:
             if o[0] == 'q':
                 ops.append(f'q:{pid[o[1]]}:{o[2]}')
-            elif o[0] == 'w':
+            elif o[0] in ('w', 'wv'):
                 ops.append(f'w:{pid[o[1]]}:{o[2]}')
+            elif o[0] == 'qp':
+                ops.append(f'q:{pid[o[5]]}:{o[2]}')      # the content requested = file text + overriding lines (registered under a virtual path just before)
             else:
                 ops.append(f'c:{did[o[1]]}')
         simtab = ';'.join(f'{c}:{("!" if o == "F" else o[1:])}' for c, o in sim.items())
@@ -189,8 +222,8 @@ def evaluate(chk: core.Check, n_hist):
         nontriv = False
         seen_req = {}
         for j, (o, rec, w) in enumerate(zip(spec['ops'], recs, want)):
-            if o[0] == 'q':
-                chk.tag('request/' + ('fail' if rec['out'] == 'F' else 'ok') + ('/cached-client' if o[2] else '/uncached'))
+            if o[0] in ('q', 'qp'):
+                chk.tag('request/' + ('with-overrides/' if o[0] == 'qp' else '') + ('fail' if rec['out'] == 'F' else 'ok') + ('/cached-client' if o[2] else '/uncached'))
                 if rec['out'] == 'F':
                     nontriv = True
             if not rec['cwd_ok']:
@@ -199,7 +232,7 @@ def evaluate(chk: core.Check, n_hist):
             if not rec['argv_ok']:
                 chk.fail('C08/argv-changed-after-' + ('failed' if rec['out'] == 'F' else 'successful') + '-request', 'a request left sys.argv changed',
                          {**base, 'op_index': j, 'op': o, 'argv_after': rec['argv']})
-            if o[0] == 'q':
+            if o[0] in ('q', 'qp'):
                 got = rec['out']
                 exp = 'F' if w == 'F' else w
                 if got != exp:
